@@ -51,6 +51,7 @@ other 2xx, no 3xx) and the body could be read to its end; it then returns that b
 theorem post_success_iff (f : Facts) :
     (post f).err = .none ↔ (f.doErr = false ∧ f.status = 200 ∧ f.readErr = false) := by
   rw [post_eq]
+  unfold postRef
   split_ifs <;> simp_all
 
 theorem post_success_body (f : Facts) (h : (post f).err = .none) : (post f).body = .body :=
@@ -140,7 +141,7 @@ theorem add_ok_rests_on_http (t : Table) (c : Nat) (d : Int) (b : Beh) (h : (add
   obtain ⟨h1, h2, h3⟩ := (clsAdd_success_iff b).1 hk
   refine ⟨?_, (check_ok_iff _).2 h1, h2, h3⟩
   rw [doPost_eq]
-  simp [Beh.facts, h2]
+  simp [doPostRef, Beh.facts, h2]
 
 /-! ### lookups: a request is skipped only on a confirmation -/
 
@@ -229,6 +230,126 @@ theorem filter_ignoring_source_breaks_direct_update :
       (run witnessFilterIgnoringSource).trace = [.ls 0 false, .ls 1 false, .upd 1 0 false] ∧
       (run witnessFilterIgnoringSource).final 0 = .r ∧ wanted witnessFilterIgnoringSource.depth = .d := by
   decide
+
+/-! ### the rest of the connector: BlockGet, BlockPut, Resolve, SwarmPeers, RepoGC, ConfigKey -/
+
+macro "aux_cases" i:ident : tactic => `(tactic| (
+  obtain ⟨op, ⟨s, ct, body, tr⟩, v⟩ := $i
+  by_cases h200 : s = 200
+  · subst h200
+    cases op <;> rcases tr with _ | _ | _ | ⟨_ | _⟩ | _ <;>
+    rcases body with _ | _ | ⟨_ | _ | _ | _⟩ | _ | _ | _ | _ | _ | _ | _ | _ | _ | _ <;>
+      simp (config := {decide := true}) [Aux.run, Aux.readBody, Aux.gcStream, Aux.Beh.stallsAux, Aux.Res.isOk,
+        post_eq, doPost_eq, check_eq, postRef, doPostRef, checkRef, Beh.facts, Body.decodesAsErrObj] <;>
+      (try split_ifs) <;> (try simp_all (config := {decide := true})) <;> (try omega)
+  · have h200' : (s == 200) = false := by simp [h200]
+    cases op <;> rcases tr with _ | _ | _ | ⟨_ | _⟩ | _ <;>
+    rcases body with _ | _ | ⟨_ | _ | _ | _⟩ | _ | _ | _ | _ | _ | _ | _ | _ | _ | _ <;>
+      simp (config := {decide := true}) [Aux.run, Aux.readBody, Aux.gcStream, Aux.Beh.stallsAux, Aux.Res.isOk,
+        post_eq, doPost_eq, check_eq, postRef, doPostRef, checkRef, Beh.facts, Body.decodesAsErrObj, h200, h200']))
+
+/-- none of the six methods reports success unless the daemon's reply had status 200 and arrived
+completely: for the five that go through `postCtx` that is `post_success_iff`; `RepoGC` calls
+`doPostCtx` and `checkResponse` itself -/
+theorem aux_success_sound (i : Aux.In) (h : (Aux.run i).isOk = true) :
+    i.beh.status = 200 ∧ i.beh.transport = .full ∧ (post i.beh.facts).err = .none := by
+  revert h
+  aux_cases i
+
+/-- BlockPut: success only if the reply carries a key that parses as a CID -/
+theorem blockput_success_sound (i : Aux.In) (hop : i.op = .blockPut) (h : (Aux.run i).isOk = true) :
+    (post i.beh.facts).err = .none ∧ (i.beh.body = .expected ∨ i.beh.body = .expectedAny) := by
+  revert h hop
+  aux_cases i
+
+/-- Resolve: success only with a parsed `/ipfs/<cid>` path, and the CID returned is that one -/
+theorem resolve_success_sound (i : Aux.In) (hop : i.op = .resolve) (a b : Nat) (h : Aux.run i = .ok a b) :
+    (post i.beh.facts).err = .none ∧ (i.beh.body = .expected ∨ i.beh.body = .expectedAny) ∧ a = 1 := by
+  revert h hop
+  aux_cases i
+
+/-- RepoGC: a refusal of the daemon (any status but 200, e.g. 500 with an error object) is an error,
+not a list with one nameless key (the defect repaired in this round) -/
+theorem repogc_refusal_is_error (i : Aux.In) (hop : i.op = .repoGC) (hs : i.beh.status ≠ 200) :
+    Aux.run i = .err := by
+  revert hs hop
+  aux_cases i
+
+/-- RepoGC keeps the per-key errors the daemon streams -/
+theorem repogc_errors_kept (i : Aux.In) (hop : i.op = .repoGC) (hb : i.beh.body = .expected) (hv : i.variant % 3 = 1)
+    (a b : Nat) (h : Aux.run i = .ok a b) : a = 2 ∧ b = 1 := by
+  revert h hv hb hop
+  aux_cases i
+
+/-- a well-formed success reply is reported as a success -/
+theorem aux_good_reply_ok (i : Aux.In) (h1 : i.beh.status = 200) (h2 : i.beh.transport = .full)
+    (h3 : i.beh.body = .expected)
+    (hop : i.op = .blockGet ∨ i.op = .blockPut ∨ i.op = .resolve ∨ i.op = .repoGC) : (Aux.run i).isOk = true := by
+  revert hop h3 h2 h1
+  aux_cases i
+
+theorem aux_returns (i : Aux.In) : Aux.run i ≠ .hang ∧ Aux.run i ≠ .panic ∧ Aux.run i ≠ .errctx := by
+  aux_cases i
+
+/-- every clause of the Spec for these methods holds of the model, for every reply of the product space -/
+theorem aux_holds (i : Aux.In) : Aux.holds i (Aux.run i) = true := by
+  have c1 : Aux.cSuccessSound i (Aux.run i) = true := by
+    unfold Aux.cSuccessSound
+    cases h : (Aux.run i).isOk
+    · simp
+    · obtain ⟨a, b, _⟩ := aux_success_sound i h
+      simp [a, b]
+  have c2 : Aux.cResolveCid i (Aux.run i) = true := by
+    unfold Aux.cResolveCid
+    cases h : Aux.run i with
+    | ok a b =>
+      by_cases hop : i.op = .resolve
+      · simp [hop, (resolve_success_sound i hop a b h).2.2]
+      · simp [hop]
+    | _ => rfl
+  have c3 : Aux.cGcErrorsKept i (Aux.run i) = true := by
+    unfold Aux.cGcErrorsKept
+    cases h : Aux.run i with
+    | ok a b =>
+      by_cases hc : i.op = .repoGC ∧ i.beh.body = .expected ∧ i.variant % 3 = 1
+      · obtain ⟨ha, hb⟩ := repogc_errors_kept i hc.1 hc.2.1 hc.2.2 a b h
+        simp [ha, hb]
+      · simp only [Bool.or_eq_true, Bool.not_eq_true', Bool.and_eq_false_iff, beq_eq_false_iff_ne, ne_eq]
+        left
+        by_cases h1 : i.op = .repoGC
+        · by_cases h2 : i.beh.body = .expected
+          · right; intro h3; exact hc ⟨h1, h2, by simpa using h3⟩
+          · left; right; simpa using h2
+        · left; left; simpa using h1
+    | _ => rfl
+  have c4 : Aux.cGoodReplyOk i (Aux.run i) = true := by
+    unfold Aux.cGoodReplyOk
+    by_cases hc : i.beh.status = 200 ∧ i.beh.transport = .full ∧ i.beh.body = .expected ∧
+        (i.op = .blockGet ∨ i.op = .blockPut ∨ i.op = .resolve ∨ i.op = .repoGC)
+    · simp [aux_good_reply_ok i hc.1 hc.2.1 hc.2.2.1 hc.2.2.2]
+    · simp only [Bool.or_eq_true, Bool.not_eq_true', Bool.and_eq_false_iff, beq_eq_false_iff_ne, ne_eq,
+        Bool.or_eq_false_iff]
+      left
+      by_cases h1 : i.beh.status = 200
+      · by_cases h2 : i.beh.transport = .full
+        · by_cases h3 : i.beh.body = .expected
+          · right
+            have h4 : ¬ (i.op = .blockGet ∨ i.op = .blockPut ∨ i.op = .resolve ∨ i.op = .repoGC) :=
+              fun h4 => hc ⟨h1, h2, h3, h4⟩
+            simp only [not_or] at h4
+            simpa [and_assoc] using h4
+          · left; right; simpa using h3
+        · left; left; right; simpa using h2
+      · left; left; left; simpa using h1
+  have c5 : Aux.cReturns (Aux.run i) = true := by
+    have := aux_returns i
+    simp [Aux.cReturns, this]
+  simp [Aux.holds, Aux.clauses, c1, c2, c3, c4, c5]
+
+example : Aux.run ⟨.repoGC, ⟨200, .json, .expected, .full⟩, 1⟩ = .ok 2 1 ∧
+    Aux.run ⟨.repoGC, ⟨500, .json, .errObj .other, .full⟩, 0⟩ = .err ∧
+    Aux.run ⟨.resolve, ⟨200, .json, .otherObj, .full⟩, 0⟩ = .err ∧
+    Aux.run ⟨.swarmPeers, ⟨200, .json, .expected, .full⟩, 2⟩ = .err := by decide
 
 /-! ### success only if the daemon reached the asked state -/
 
